@@ -69,7 +69,7 @@ ASSUMPTIONS = [
     "change made by the *caller* is therefore not asserted against (only counted as metadata_alias_*)",
     "an operation that raises is 'rejected'; its inputs must still be unchanged",
 ]
-BUDGET = {"quick": 55, "thorough": 400}
+BUDGET = {"quick": 50, "thorough": 400}
 NCASES = {"quick": 4800, "thorough": 48000}
 EVAL_COUNTER = "monitored_calls"
 FLOORS = {
@@ -306,6 +306,17 @@ def op_derivative(S):
     args = [cur, f]
     kw = {}
     r = rng.random()
+    if rng.random() < 0.12 and isinstance(cur, Form):
+        # shape derivative: CoordinateDerivative nodes for apply_coordinate_derivatives / integral scaling
+        x = ufl.SpatialCoordinate(S.U.mesh)
+        try:
+            n = len(cur.arguments())
+        except Exception:
+            return None
+        return ("derivative", ufl.derivative, (cur, x, ufl.Argument(S.U.spaces["P1v"], n)), {}, "coordinate derivative")
+    if rng.random() < 0.1 and len(cs) >= 2:
+        # tuple of coefficients -> argument in a mixed space
+        return ("derivative", ufl.derivative, (cur, tuple(rng.sample(cs, 2))), {}, "tuple of coefficients")
     if r < 0.35:
         n = len(cur.arguments()) if isinstance(cur, Form) else 0
         args.append(ufl.Argument(f.ufl_function_space(), n))
@@ -547,9 +558,13 @@ def op_analysis(S):
 
 
 def op_format(S):
-    k = S.rng.choice(["str", "tree_format", "repr"])
+    k = S.rng.choice(["str", "tree_format", "repr", "ufl2unicode"])
     if dag_stats_of(S.cur) > 3000:
         return None
+    if k == "ufl2unicode":
+        from ufl.formatting.ufl2unicode import ufl2unicode
+
+        return ("ufl2unicode", ufl2unicode, (S.cur,), {}, None)
     if k == "str":
         return ("str", str, (S.cur,), {}, None)
     if k == "repr":
@@ -717,13 +732,15 @@ def run_history(ctx, rng, S, mon, start_label, first=None):
     mon.remember(start_label, S.cur)
     produced_new = False
     for step in range(nsteps):
-        if ctx.time_left() < 2:
-            ctx.count("history_cut_by_time_budget")
-            break
         table = FORM_OPS if isinstance(S.cur, Form) else EXPR_OPS
         spec = first if step == 0 else None
         for _ in range(6 if spec is None else 0):
-            spec = pick(rng, table)(S)
+            try:
+                spec = pick(rng, table)(S)
+            except Exception:
+                # preparing the operands (arguments(), coefficients() of the current object) was refused by UFL
+                ctx.count("operand_preparation_rejected")
+                spec = None
             if spec is not None:
                 break
         if spec is None:
@@ -964,6 +981,9 @@ def history_baseform(ctx, i, rng):
 
 def case(ctx, i, rng):
     r = i % 20
+    if ctx.time_left() < 1.5:
+        ctx.count("cases_skipped_end_of_time_budget")
+        return
     try:
         if r < 11:
             history_form(ctx, i, rng)
